@@ -25,7 +25,13 @@ Names == {Rep(97, n) : n \in {0, 1, 2, 47, 48, 49, 60}}
   \cup {[Rep(97, n) EXCEPT ![p] = s] : n \in {1, 2, 48}, p \in {1, 2, 48}, s \in Specials}
   \cup {<<107, 115, 49>>, <<75, 115, 95, 49>>, <<95, 107>>, <<49, 50, 51>>, <<107, 115, 49, 59, 32, 68, 82, 79, 80>>, <<107, 34, 59, 45, 45>>}
 VARIABLE c
+\* the keyspace is set while a node is down; the node comes back later and its fresh connections must be in the keyspace
+DownScript(sh, d, n, w) ==
+  [nodes |-> sh.nodes, pool |-> sh.pool, use_delay_ms |-> d,
+   steps |-> Req(2) \o <<[op |-> "stop", node |-> n]>> \o Sleep(w) \o <<[op |-> "use", ks |-> "ks1"]>> \o Req(4) \o <<[op |-> "start", node |-> n]>>
+             \o Sleep(30) \o Req(8) \o Sleep(400) \o Req(8) \o Sleep(1500) \o Req(8)]
 Init == \/ \E sh \in Shapes : \E d \in {0, 30, 80} : \E x \in Disrupt : \E y \in Disrupt : c = [t |-> "script", s |-> Script(sh, d, x, y)]
+        \/ \E sh \in Shapes : \E d \in {0, 30} : \E w \in {50, 300} : c = [t |-> "script", s |-> DownScript(sh, d, 1, w)]
         \/ \E nm \in {n \in Names : Len(n) = 0 \/ \A i \in DOMAIN n : TRUE} : \E cs \in {0, 1} : c = [t |-> "name", name |-> nm, cs |-> cs]
 Next == UNCHANGED c
 Spec == Init /\ [][Next]_c
